@@ -468,6 +468,30 @@ pub fn c10_case(fam: &str, idx: usize, seed: u64) -> Option<Case> {
             let desc = format!("{} size={} suspend at e{} {:?}, cancel there {} ms later (no resume) faults=[{}]", k.describe(), size, who, sc.scripts[0].trig, sc.scripts[0].delay_ms, rules_desc(&sc.rules));
             Some(Case::from(sc, &k, desc, true))
         }
+        "stall" => {
+            // back-pressure instead of loss: the cancelling entity's transport stops taking PDUs (its `request`
+            // never returns), before or after the cancel; the cancel still ends the transaction there
+            let mut rng = Rng::derive(seed, 1005, idx as u64);
+            let mode = idx % 3;
+            let who = (idx / 3) % 2;
+            let mut k = Knobs::base();
+            k.seg = 32;
+            k.mode = if modes[mode].0 { ack() } else { unack() };
+            k.closure = modes[mode].1;
+            k.nak = nak_procs()[rng.usize(4)];
+            let size = 32 * (4 + rng.usize(12));
+            let c = content(&mut rng, size, idx as u64 % 5, 32, 0xC10);
+            let mut sc = two_party(&case, seed ^ idx as u64, &k, c);
+            let n0 = first_pass_len(size, 32);
+            let at = 1 + rng.usize(n0 - 2);
+            let stall_at = if who == 0 { at + rng.usize(3) } else { rng.usize(2) };
+            sc.stall_after.push((who, stall_at));
+            let trig = if who == 0 { Trigger::AfterEmit(0, at) } else { Trigger::AfterArrive(1, at) };
+            sc.scripts.push(Script { trig, delay_ms: rng.below(3), act: Act::Prim(who, PrimKind::Cancel, 0) });
+            sc.paced = true;
+            let desc = format!("{} size={} cancel at e{} {:?}; its transport stalls after {} PDUs", k.describe(), size, who, sc.scripts[0].trig, stall_at);
+            Some(Case::from(sc, &k, desc, false))
+        }
         "ignored" => {
             // an earlier fault that the user configured to be ignored (the receiver's inactivity watch, which
             // fires while the sender is suspended) must leave no trace in a later cancel: both sides still
@@ -711,6 +735,8 @@ pub fn run_c10(tier: &str, seed: u64, replay: Option<&str>) -> (Meta, Report) {
     rep.add("cases:rand", nr as u64);
     let nsu = if thorough { 60_000 } else { 1_000 };
     rep.merge(run_cases(nsu, "c10-suspended", move |i| c10_case("suspended", i, seed), judge_c10));
+    rep.merge(run_cases(nsu / 2, "c10-stall", move |i| c10_case("stall", i, seed), judge_c10));
+    rep.add("cases:stall", (nsu / 2) as u64);
     rep.merge(run_cases(nsu / 2, "c10-ignored", move |i| c10_case("ignored", i, seed), judge_c10));
     rep.add("cases:ignored", (nsu / 2) as u64);
     rep.add("cases:suspended", nsu as u64);
